@@ -9,7 +9,7 @@
    counterexamples; it is tested by the correspondence run against the reference
    formatter of DigitModelSpec.v, not proved. *)
 From Coq Require Import NArith ZArith List Bool.
-From Qv Require Import gen.Tables_digit DigitModel DigitModelSpec DigitProofsInt DigitProofsReal DigitProofsSafety DigitProofsAccScale.
+From Qv Require Import gen.Tables_digit DigitModel DigitModelSpec DigitProofsInt DigitProofsReal DigitProofsSafety DigitProofsAccScale DigitProofsAccEmit DigitProofsAccRound.
 Import ListNotations.
 Local Open Scope N_scope.
 
@@ -191,3 +191,66 @@ Theorem c10_scale_examples :
     = Ok (10000000, 0, false).
 Proof. exact scale_examples. Qed.
 Print Assumptions c10_scale_examples.
+
+(* ================= Accuracy phase 2: digit emission and the rounding decision ================= *)
+(* bigIntToString writes exactly the decimal digits of the big integer, least significant first
+   (decimal_of b s: s consists of digits, denotes b, has no leading zero) *)
+Theorem c10_big_to_string_digits : forall fuel b ds,
+  big_to_string fuel b = Ok ds -> (b = 0 /\ ds = []) \/ (b <> 0 /\ decimal_of b (rev ds)).
+Proof. exact big_to_string_digits. Qed.
+Print Assumptions c10_big_to_string_digits.
+
+(* chained with the exact scaling: for |value| >= 1 the digit run handed to the formatter is the exact truncated
+   decimal expansion of floor (value * 10^fl) (fraction path) resp. floor (value / 10^drop) (integer path), and
+   round_up says exactly whether something non-zero was cut off *)
+Theorem c10_digit_run_exact_fraction_ge1 : forall fi mantissa be precision is_fixed b fl ru ds,
+  let ms := fi_msize fi in let pe := be - fi_bias fi in
+  mantissa <> 0 -> ms <= 63 -> fi_bias fi <= be -> be - fi_bias fi <= 4000 -> precision < 2 ^ 20 ->
+  let fs := ctz mantissa in
+  let digits := (pe * 30103) / 100000 + 1 in
+  fs <= ms -> ((ms - fs <=? pe) || ((precision <? digits) && negb is_fixed)) = false ->
+  real_scale fi mantissa be precision is_fixed = Ok (b, fl, ru) ->
+  big_to_string 80 b = Ok ds ->
+  let o := mantissa / 2 ^ fs in let F := ms - fs - pe in
+  let X := (o * 5 ^ fl) / 2 ^ (F - fl) in
+  ru = negb ((o * 5 ^ fl) mod 2 ^ (F - fl) =? 0)
+  /\ ((X = 0 /\ ds = []) \/ (X <> 0 /\ decimal_of X (rev ds))).
+Proof. exact digit_run_exact_fraction_ge1. Qed.
+Print Assumptions c10_digit_run_exact_fraction_ge1.
+
+Theorem c10_digit_run_exact_integer : forall fi mantissa be precision is_fixed b fl ru ds,
+  let ms := fi_msize fi in let pe := be - fi_bias fi in
+  mantissa <> 0 -> ms <= 64 -> fi_bias fi <= be -> be - fi_bias fi <= 4000 -> precision < 2 ^ 20 ->
+  let first_bit := ms - ctz mantissa in
+  let digits := (pe * 30103) / 100000 + 1 in
+  ((first_bit <=? pe) || ((precision <? digits) && negb is_fixed)) = true -> ctz mantissa <= ms ->
+  real_scale fi mantissa be precision is_fixed = Ok (b, fl, ru) ->
+  big_to_string 80 b = Ok ds ->
+  fl = 0 /\ exists drop, (drop = 0 \/ (is_fixed = false /\ drop = digits - (precision + 1)))
+    /\ let X := (mantissa * 2 ^ pe) / (2 ^ ms * 10 ^ drop) in
+       ru = negb ((mantissa * 2 ^ pe) mod (2 ^ ms * 10 ^ drop) =? 0)
+       /\ ((X = 0 /\ ds = []) \/ (X <> 0 /\ decimal_of X (rev ds))).
+Proof. exact digit_run_exact_integer. Qed.
+Print Assumptions c10_digit_run_exact_integer.
+
+(* the rounding decision of roundStringNumber IS round-half-even on the exact value: for a run lo ++ c :: hi of
+   decimal digits (least significant first) denoting X = lval (..), rounding at the digit c with the flag ru
+   ("something non-zero was cut off below the run"), the code rounds up iff
+   half_even_up X i ru:  X mod 10^(i+1) > 5 * 10^i, or = 5 * 10^i and (ru or the kept quotient is odd).
+   NOT proved: that the text assembled afterwards (carry propagation, zero trimming / give-back, point and
+   padding) equals the reference %.{p}f -- that remains tested against DigitModelSpec on every generated case. *)
+Theorem c10_round_decision_is_half_even : forall lo c hi ru,
+  let buf := lo ++ c :: hi in let i := N.of_nat (length lo) in
+  Forall dig lo -> dig c -> Forall dig hi -> blen buf < 2 ^ 32 ->
+  round_string_number buf 0 i ru =
+  if half_even_up (lval buf) i ru then round_carry buf (i + 1) else Ok (buf, i + 1, false).
+Proof. exact round_string_number_half_even. Qed.
+Print Assumptions c10_round_decision_is_half_even.
+
+Theorem c10_emit_round_examples :
+  big_to_string 80 11150001 = Ok [49; 48; 48; 48; 53; 49; 49; 49]
+  /\ half_even_up 25 0 false = false /\ half_even_up 35 0 false = true /\ half_even_up 25 0 true = true.
+Proof.
+  destruct emit_examples as [E1 _]. destruct round_examples2 as [R1 [R2 [R3 _]]]. auto.
+Qed.
+Print Assumptions c10_emit_round_examples.
